@@ -28,7 +28,7 @@ DIMS = {
     'N': [3, 1, 2, 5],
     'T': [['dec'], ['iso', 800.0], ['iso', 2000.0], ['inc'], ['hot1'], ['outside']],
     'mag': ['tau1', 'zero', 'thin', 'mixed', 'sat'],
-    'ngauss': [2, 1, 3, 4, 6],
+    'ngauss': [2, 1, 3, 4, 6, 101, 128],        # (beyond 100 points: another node routine may take over)
     'contribs': [['abs'], ['abs', 'cia'], ['abs', 'ray'], [], ['abs', 'cia', 'ray'], ['ray', 'cia'], ['ray', 'abs'],
                  ['cia', 'abs', 'ray']],
     'kind': ['emission', 'directimage'],
